@@ -66,7 +66,10 @@ def check_constraint(ctx, name, out, dim, rank, field, opt, prec, theta, tag='')
     ctx.finite(x, f'{name}: finite output{tag}')
     if name.startswith('positive_real'):
         ctx.require(x.shape == theta.shape, f'{name}: shape')
-        ctx.require(np.all(x >= 0) and (np.all(x > 0) or np.abs(theta).max() > (80 if prec == 64 else 20)), f'{name}: positive', f'min={x.min()}')
+        # strictly positive element by element wherever exp(theta) is representable (softplus(t) ~ exp(t) for t << 0); below that an exact 0 is inherent
+        lim = 700 if prec == 64 else 80
+        inside = np.asarray(theta) > -lim
+        ctx.require(np.all(x >= 0) and np.all(x[inside] > 0), f'{name}: positive', f'min={x.min()} at theta={np.asarray(theta)[inside][np.argmin(x[inside])] if inside.any() else None}')
     elif name == 'open_interval':
         lo, hi = opt
         ctx.require(x.shape == theta.shape, f'{name}: shape')
